@@ -2,7 +2,9 @@ pub mod hist;
 pub mod c01;
 pub mod c03;
 pub mod c04;
+pub mod c04a;
 pub mod c15;
+pub mod c20;
 pub mod kf;
 
 use crate::driver::Tier;
@@ -14,6 +16,7 @@ pub fn run(id: &str, tier: Tier, seed: u64, replay: Option<Value>) -> i32 {
         "C03" => hist::run(&c03::spec(), tier, seed, replay),
         "C04" => hist::run(&c04::spec(), tier, seed, replay),
         "C15" => hist::run(&c15::spec(), tier, seed, replay),
+        "C20" => c20::run(tier, seed, replay),
         _ => {
             eprintln!("unknown property {}", id);
             2
